@@ -116,22 +116,30 @@ def takeRefs (rs : List (Nat × RefId)) (level : Nat) : List RefId × List (Nat 
   let top := rs.reverse.takeWhile (fun e => e.1 == level)
   (top.map (·.2), rs.take (rs.length - top.length))
 
+/-- drop the top frame of `CallStack` and `idxstack` -/
+def St.dropFrame (s : St) : St := { s with stack := s.stack.dropLast, idx := s.idx.dropLast }
+
+/-- graph part of `CallStack.pop`: edge from the finished node (or from the object node of
+an uncached cells) to the nearest cached caller; an isolated node otherwise -/
+def St.popEdge (env : Env) (s : St) (n : Node) : St :=
+  match s.edgeTarget with
+  | some t => s.addEdge (if env.cached n.1 then .elem n else .obj n.1) (.elem t)
+  | none => if env.cached n.1 then s.addNode (.elem n) else s
+
+/-- reference part of `CallStack.pop`: the reads made by this frame become edges of the
+reference graph -/
+def St.drainRefs (s : St) (n : Node) : St :=
+  { s with refstack := (takeRefs s.refstack s.stack.length).2,
+           rg := s.rg ++ (((takeRefs s.refstack s.stack.length).1.map (fun r => (r, n))).eraseDups).filter
+                  (fun e => !s.rg.contains e) }
+
 /-- `CallStack.pop` -/
 def St.pop (env : Env) (s : St) (n : Node) : St :=
-  let s1 := { s with stack := s.stack.dropLast, idx := s.idx.dropLast }
-  let gself : GNode := if env.cached n.1 then .elem n else .obj n.1
-  let s2 :=
-    match s1.edgeTarget with
-    | some t => s1.addEdge gself (.elem t)
-    | none => if env.cached n.1 then s1.addNode (.elem n) else s1
-  let (refs, rest) := takeRefs s2.refstack s2.stack.length
-  { s2 with refstack := rest, rg := s2.rg ++ ((refs.map (fun r => (r, n))).eraseDups).filter (fun e => !s2.rg.contains e) }
+  ((s.dropFrame).popEdge env n).drainRefs n
 
 /-- `CallStack.rollback` -/
 def St.rollback (s : St) (n : Node) : St :=
-  let s1 := { s with stack := s.stack.dropLast, idx := s.idx.dropLast,
-                     rolledback := s.rolledback ++ [(n, s.curExc)] }
-  let s2 := s1.removeNode (.elem n)
+  let s2 := ({ s.dropFrame with rolledback := s.rolledback ++ [(n, s.curExc)] }).removeNode (.elem n)
   { s2 with refstack := (takeRefs s2.refstack s2.stack.length).2 }
 
 /-- cache hit in `eval_node`: edge to the nearest cached caller -/
